@@ -106,6 +106,7 @@ type member struct {
 	marks     map[int][]string // per session: "p/off"
 	errs      []string
 	errClosed bool
+	closeCh   chan struct{}
 }
 
 type rig struct {
@@ -219,6 +220,12 @@ func (h *handler) ConsumeClaim(s sarama.ConsumerGroupSession, c sarama.ConsumerG
 			n++
 		case <-s.Context().Done():
 			return nil
+		case <-h.m.closeCh:
+			// the application is closing the group: like a handler that ranges over Messages(), drain
+			// the claim until the channel is closed, then return
+			for range c.Messages() {
+			}
+			return nil
 		}
 	}
 	return nil
@@ -267,7 +274,7 @@ func run(c *gx.Ctl, p *Params) *gx.Outcome {
 	var creators []func()
 	for i := 0; i < p.Members; i++ {
 		m := &member{idx: i, offered: map[int32]map[int64]bool{}, taken: map[int32]int{}, permits: map[int32]chan struct{}{}, out: map[int32]int{},
-			reading: map[int32]bool{}, delivered: map[int32][]int64{}, marks: map[int][]string{}}
+			reading: map[int32]bool{}, delivered: map[int32][]int64{}, marks: map[int][]string{}, closeCh: make(chan struct{})}
 		for k := 0; k < p.NParts; k++ {
 			m.permits[int32(k)] = make(chan struct{}, 64)
 		}
@@ -466,6 +473,7 @@ func (r *rig) actors() []gx.Actor {
 				r.mu.Lock()
 				m.closing = true
 				r.mu.Unlock()
+				close(m.closeCh)
 				go func() {
 					_ = m.group.Close()
 					_ = m.group.Close() // closing a group twice must be harmless
